@@ -85,7 +85,8 @@ class World:
     # ---- tempfile / os / open
     def NamedTemporaryFile(self, delete=True, **kw):
         self.counter += 1
-        name = '/faketmp/tmp%d' % self.counter
+        # the temporary directory may have any legal name: a blank in it for the third answer layout
+        name = ('/faketmp/scratch files/tmp%d' if self.layout == 2 else '/faketmp/tmp%d') % self.counter
         self.files[name] = b''
         self.created.append(name)
         return _TmpFile(self, name)
